@@ -533,6 +533,14 @@ func (o *c10Obs) judgePres(w *wWorld, st *wStep, post *mem.State, postLive map[s
 		return nil
 	}
 	if !live1 && !live2 {
+		if p.What == "gone" && st.Op.K == "del" && st.Op.A == "user" && p.Topic == "me" {
+			// an account is deleted while one of its P2P topics is in memory: the other participant is
+			// told 'gone' even when that participant had unsubscribed long ago (listed finding)
+			if v := kit.V("pres-to-removed:gone-after-account-deletion", "%s: the user had unsubscribed from that P2P topic before; the topic was still in memory when the other participant's account was deleted", desc()); o.known == nil || !o.known(v) {
+				return v
+			}
+			return nil
+		}
 		return kit.V("pres-to-removed", "%s: the user's subscription there was removed before this step", desc())
 	}
 	if c10NeedsP[p.What] {
@@ -730,6 +738,7 @@ func c10Exec(t *testing.T, r *kit.Run) func(wProg) kit.Outcome {
 		r.WAL(p)
 		wSnapPerSubs = true
 		obs := &c10Obs{att: newWAttach(), told: map[int]map[string]c10Told{}, tainted: map[string]bool{}}
+		obs.known = func(v *kit.Viol) bool { return r.IsKnown(v.Sig) && r.Violation(v, p) }
 		var res wRunResult
 		fail := wInBubble(t, func() { res = wExec(&p, obs, nil) })
 		o := kit.Outcome{NonTrivial: obs.judgedPairs >= 2 && obs.onTold >= 1 && obs.offTold >= 1}
